@@ -293,6 +293,34 @@ func (p *LeafPool) Confuse(t *rapid.T, pool []model.Expr, o ExprOpts) model.Expr
 	}
 }
 
+// ErrorPrecedence returns expressions in which a test of a column that occurs
+// in no row sits next to operands whose result already decides the node
+// (nothing matches / everything matches), in every position: the error is
+// due whatever the other operands evaluate to.
+func (p *LeafPool) ErrorPrecedence(t *rapid.T) []model.Expr {
+	if len(p.Cols) == 0 {
+		return nil
+	}
+	c := rapid.SampledFrom(p.Cols).Draw(t, "epcol")
+	none := model.Eq(c, "no-such-value~"+rapid.SampledFrom([]string{"", "x", "\x00"}).Draw(t, "epsfx"))
+	all := model.Not(none)
+	unk := model.Eq(rapid.SampledFrom(p.Unknown).Draw(t, "epunk"), Value().Draw(t, "epval"))
+	some := p.Leaf(t, ExprOpts{})
+	forms := []model.Expr{
+		model.And(none, unk), model.And(unk, none), model.And(some, none, unk),
+		model.Or(all, unk), model.Or(unk, all), model.Or(some, all, unk),
+		model.And(none, model.Not(unk)), model.Or(all, model.And(some, unk)),
+		model.Not(model.And(none, unk)), model.And(model.Or(all, some), model.Or(all, unk)),
+	}
+	// three of them per case
+	out := make([]model.Expr, 0, 3)
+	start := rapid.IntRange(0, len(forms)-1).Draw(t, "epstart")
+	for i := 0; i < 3; i++ {
+		out = append(out, forms[(start+i*3)%len(forms)])
+	}
+	return out
+}
+
 // UnknownSometimes returns expression options in which roughly one expression
 // in ten may contain leaves on a column that occurs in no row (the error
 // clause); the others only use existing columns, so that most expressions
